@@ -274,7 +274,19 @@ pub fn explore_job<M: Mask>(spec: &Spec, info: &Info<M>, cfg: &JobCfg, focus: &F
     // (wide families, whose build() is cubic) are cloned from a template that is itself
     // never run, so every execution still starts from a graph value no run has touched.
     let template = if spec.n > 8 { Some(build(spec)) } else { None };
-    let fresh = || template.as_ref().map(|t| t.clone()).unwrap_or_else(|| build(spec));
+    let pre: Option<&RunCfg> = match cfg {
+        JobCfg::S(c) => c.pre.as_deref(),
+        JobCfg::C(c) => c.pre.as_deref(),
+        _ => None,
+    };
+    let fresh = || {
+        let mut g = template.as_ref().map(|t| t.clone()).unwrap_or_else(|| build(spec));
+        if let Some(p) = pre {
+            // the earlier run of a history: default schedule, run to its end on this graph value
+            let _ = run_on(&mut g, p, vec![]);
+        }
+        g
+    };
     while let Some(prefix) = stack.pop() {
         let plen = prefix.len();
         local_execs += 1;
